@@ -863,7 +863,8 @@ func (g *Gen) genFloatLike(t *Type, depth int) Expr {
 		return g.zeroOrLit(t)
 	case 2:
 		op := []string{"+", "-", "*", "+", "-", "*", "/", "%"}[r.Intn(8)]
-		if (op == "/" || op == "%") && !g.allowTol {
+		if (op == "/" || op == "%") && !g.allowTol && !(op == "%" && g.fx == nil) {
+			// (a float remainder is exact, so a constant expression may contain it without a tolerance)
 			op = "*"
 		}
 		if op == "%" && !g.on("op.%.f32") {
